@@ -1,5 +1,5 @@
 (* allow-axioms:  *)
-From RRE Require Import Base.Sx Generated.Consts Model.ReteAgenda Proofs.ReteAgendaProofs.
+From RRE Require Import Base.Sx Generated.Consts Model.ReteAgenda Proofs.ReteAgendaProofs Proofs.ReteAgendaHistoryProofs.
 Open Scope Z_scope.
 From RRE Require Import Properties.C07.
 Check (C07_next_is_eligible_and_greatest : forall n a a' m,
@@ -20,3 +20,4 @@ Check (C07_ul_fire_all_bounded : forall rules, (snd (ul_fire_all rules) <= ul_ma
 Check (C07_typed_fire_all_bounded : forall rules,
   typed_max_iterations <> None /\ (snd (typed_fire_all rules) <= typed_bound + 1)%N).
 Check (C07_incr_fire_all_bounded : forall rules, (snd (incr_fire_all rules) <= incr_max_iterations + 1)%N).
+Check (C07_histories_fire_at_most_once : forall ops, hist_sound (init, None) [] ops).
